@@ -33,7 +33,7 @@ VARIABLES pi, ci, fi,   \* which case / configuration / fault set
           hookFailed, shouldSkip,
           rt,           \* runner scalars: hookN hookFailures aborted undefN runFeature failedCount rootClFailed done
           ctx,          \* context frames, root first: [layer, cls, owner]
-          cap,          \* capture: [buf (captured markers of the running scenario), errmarks, rout, rerr (markers on the real streams)]
+          cap,          \* capture: [buf (captured markers of the running scenario), errmarks, rout, rerr (markers on the real streams), ulog (log markers seen by the user's own root handler)]
           evlog         \* ghost: observable events
 vars == <<pi, ci, fi, stack, ret, stepst, forced, hookFailed, shouldSkip, rt, ctx, cap, evlog>>
 
@@ -131,7 +131,7 @@ Init == /\ pi \in 1..Len(Cases)
         /\ rt = [hookN |-> 0, hookFailures |-> 0, aborted |-> FALSE, undefN |-> 0, runFeature |-> TRUE,
                  failedCount |-> 0, rootClFailed |-> FALSE, done |-> FALSE]
         /\ ctx = << [layer |-> "testrun", cls |-> <<>>] >>
-        /\ cap = [buf |-> <<>>, rout |-> <<>>, rerr |-> <<>>, errmarks |-> [el \in 1..Len(Cases[pi].prog) |-> [k \in 1..Len(Cases[pi].prog[el].steps) |-> <<>>]]]
+        /\ cap = [buf |-> <<>>, rout |-> <<>>, rerr |-> <<>>, ulog |-> <<>>, errmarks |-> [el \in 1..Len(Cases[pi].prog) |-> [k \in 1..Len(Cases[pi].prog[el].steps) |-> <<>>]]]
         /\ evlog = <<>>
 
 U(vs) == UNCHANGED vs
@@ -455,7 +455,12 @@ Wr(c, stream, m) == CASE stream = "out" -> IF cfg.cap_out THEN [c EXCEPT !.buf =
 LogPass(lv, nm) == /\ lv >= cfg.loglvl
                    /\ IF cfg.logexc # <<>> THEN \A i \in DOMAIN cfg.logexc : cfg.logexc[i] # nm
                       ELSE cfg.loginc = <<>> \/ \E i \in DOMAIN cfg.loginc : cfg.loginc[i] = nm
-WrLog(c, m, lv, nm) == IF cfg.cap_log /\ LogPass(lv, nm) THEN [c EXCEPT !.buf = Append(@, m)] ELSE c
+\* the user's own root handler sees a record iff it is attached (with --logging-clear-handlers it is detached while a
+\* scenario captures logging) and the record reaches the root level (the capture handler's level while capturing, else WARNING)
+RootLvl == IF cfg.cap_log THEN cfg.loglvl ELSE 30
+UserAttached == ~(cfg.cap_log /\ cfg.logclear)
+WrLog(c, m, lv, nm) == LET c1 == IF cfg.cap_log /\ LogPass(lv, nm) THEN [c EXCEPT !.buf = Append(@, m)] ELSE c
+                       IN IF UserAttached /\ lv >= RootLvl THEN [c1 EXCEPT !.ulog = Append(@, m)] ELSE c1
 \* every step body prints O (stdout), E (stderr) and logs D (DEBUG, logger "verif"), L (WARNING, "verif"), G (ERROR, "other")
 StepWrites(c, el, k) == WrLog(WrLog(WrLog(Wr(Wr(c, "out", Mark("O", el, k)), "err", Mark("E", el, k)),
                                           Mark("D", el, k), 10, "verif"), Mark("L", el, k), 30, "verif"), Mark("G", el, k), 40, "other")
